@@ -5,6 +5,7 @@ package tglib
 // Ghost helpers used by the contracts of this package (specification only).
 
 import (
+	"vspec/ids"
 	"vspec/nasalg"
 	"vspec/vc"
 )
@@ -79,4 +80,41 @@ func vcEstimate(dl uint32, sht uint8, pkt []byte) uint32 {
 
 func vcSame(a, b []byte) bool {
 	return len(a) == len(b) && vc.Forall(0, len(a), func(i int) bool { return a[i] == b[i] })
+}
+
+// ---- helpers for the C05 contracts ----
+
+func vcAllHex(s string) bool {
+	return vc.Forall(0, len(s), func(i int) bool { return ids.IsHexDigit(s[i]) })
+}
+
+// vcHex16 is the 16-octet string written as 32 hexadecimal digits.
+func vcHex16(s string) [16]byte {
+	var r [16]byte
+	for j := 0; j < 16; j++ {
+		r[j] = ids.HexOctet(s, j)
+	}
+	return r
+}
+
+func vcA16(b []byte) [16]byte {
+	var r [16]byte
+	for j := 0; j < 16; j++ {
+		r[j] = b[j]
+	}
+	return r
+}
+
+func vcA32(b []byte) [32]byte {
+	var r [32]byte
+	for j := 0; j < 32; j++ {
+		r[j] = b[j]
+	}
+	return r
+}
+
+// vcIsImsiSupi: "imsi-" followed by decimal digits only.
+func vcIsImsiSupi(s string) bool {
+	return len(s) >= 10 && s[0] == 'i' && s[1] == 'm' && s[2] == 's' && s[3] == 'i' && s[4] == '-' &&
+		vc.Forall(5, len(s), func(i int) bool { return '0' <= s[i] && s[i] <= '9' })
 }
